@@ -4,9 +4,11 @@ import (
 	"fmt"
 	"io"
 	"os"
+	"sync"
 )
 
 type fileDisk struct {
+	mutex     sync.RWMutex // protects buffer, offset and size of parts
 	fpath     string
 	f         *os.File
 	parts     []*partDisk
@@ -27,6 +29,9 @@ func newFileDisk(fpath string) (File, error) {
 
 // Finalize implements File.
 func (s *fileDisk) Finalize() {
+	s.mutex.Lock()
+	defer s.mutex.Unlock()
+
 	if len(s.parts) > 0 {
 		// set size of last part
 		lastPart := s.parts[len(s.parts)-1]
@@ -52,6 +57,9 @@ func (s *fileDisk) Remove() {
 
 // NewPart implements File.
 func (s *fileDisk) NewPart() Part {
+	s.mutex.Lock()
+	defer s.mutex.Unlock()
+
 	// set size of last part and get offset
 	offset := uint64(0)
 	if len(s.parts) > 0 {
